@@ -13,6 +13,7 @@ HDR = b'-----BEGIN PGP SIGNED MESSAGE-----\nHash: SHA256\n\n'
 SIGB = b'\n-----BEGIN PGP SIGNATURE-----\n\n'
 SIGE = b'\n-----END PGP SIGNATURE-----\n'
 SIGBODY_T = '*verif.sigBody'
+UNSUPPORTED_T = 'golang.org/x/crypto/openpgp/errors.UnsupportedError'
 
 
 def pgp_key(I, st, i):
@@ -104,7 +105,12 @@ def _clearsign_decode(I, st, args):
                 return f
             alts.append((mk_and([c0, c1, endc, tc]), mk()))
             matched.append(tc)
-        alts.append((mk_and([c0, c1, mk_not(mk_and([endc, mk_or(matched)]))]), nil))
+        # the armour is intact but its body names no signature that was ever made: the block is handed out all the
+        # same (the real decoder looks at the packets only when the signature is checked) with a damaged signature
+        unknown = mk_and([c0, c1, endc, mk_not(mk_or(matched))])
+        if unknown is not False:
+            alts.append((unknown, mk(-1)))
+        alts.append((mk_and([c0, c1, mk_not(endc)]), nil))
     return ('alts', alts)
 
 
@@ -151,7 +157,7 @@ def _check_detached(I, st, args):
             sigs = st3.aux.get('pgpsigs', ())
             cands = []
             if isinstance(sg, int):
-                cands = [(True, sg)]
+                cands = [(True, sg)] if sg >= 0 else []
             else:
                 tok = sg[1]
                 if tok is not None and len(tok) == 8:
@@ -169,6 +175,11 @@ def _check_detached(I, st, args):
                     alts.append((valid, Tup((keyptr, None))))
             bad = mk_not(mk_or([a[0] for a in alts]))
             alts.append((bad, (lambda s_: Tup((None, new_error(I, s_, 'openpgp: signature verification failed'))))))
+            # a signature packet that names no known signature is a damaged packet: the real parser answers such
+            # packets with a structural error or - unknown version, type, algorithm - with errors.UnsupportedError
+            known = mk_or([c for c, _ in cands]) if cands else False
+            if known is not True and getattr(I, 'nondet_env', True):
+                alts.append((mk_not(known), Tup((None, Iface(UNSUPPORTED_T, mkstr(b'openpgp: unsupported feature: signature packet'))))))
             outs.extend(I.resolve(st3, ('alts', alts)))
     return ('outcomes', outs)
 
@@ -176,3 +187,8 @@ def _check_detached(I, st, args):
 @model((SIGBODY_T, 'Read'))
 def _sigbody_read(I, st, args):
     return Tup((0, Iface('*errors.errorString', None))) if False else Tup((0, I.load(st, Ptr('io.EOF', ()))))
+
+
+@model((UNSUPPORTED_T, 'Error'))
+def _unsupported_error(I, st, args):
+    return args[0]
